@@ -14,16 +14,34 @@ from solver_model import run_solver, SolverInputs
 TRUST = "SHA-256 collision-freedom; repr/str/tobytes encode their argument injectively for the value types passed; np.savez/np.load round-trip arrays by name"
 
 
+LOSSY = ("nunique", "count", "len", "max", "min", "sum")
+
+
+def _atoms_lossless(x, acc):
+    """atoms of x, not descending into summaries that forget order/multiplicity (unique counts, lengths, extrema)"""
+    for m in x.n:
+        for a, e in m:
+            if a not in acc:
+                acc.add(a)
+                if not (a.kind == "fn" and a.name in LOSSY):
+                    for arg in a.args:
+                        if isinstance(arg, Expr):
+                            _atoms_lossless(arg, acc)
+            if isinstance(e, Expr):
+                _atoms_lossless(e, acc)
+    return acc
+
+
 def deep_atoms(v, acc=None):
     acc = set() if acc is None else acc
     if isinstance(v, Expr):
-        v.atoms(True, acc)
+        _atoms_lossless(v, acc)
     elif isinstance(v, Arr):
         if isinstance(v.val, Expr):
-            v.val.atoms(True, acc)
+            _atoms_lossless(v.val, acc)
         for d in (v.shape or ()):
             if isinstance(d, Expr):
-                d.atoms(True, acc)
+                _atoms_lossless(d, acc)
         if isinstance(v, SymArr):
             v.sym.atoms(True, acc)
     elif isinstance(v, Tup):
